@@ -96,6 +96,12 @@ func gen(g *common.Gen) {
 					fresh = 0
 				default:
 					fresh = common.Pick(r, []int{1, 5, 10, 50, 100, 1000})
+					if r.Chance(1, 6) {
+						// very long freshness periods: up to the largest period a time.Duration holds
+						// (insertion time + period lies beyond the year 2262, where UnixNano wraps)
+						fresh = common.Pick(r, []int{3000000000000, 7430000000000, 8000000000000, 9223372036854, 86400000 * 365})
+						g.Stat("ins-fresh-very-long")
+					}
 				}
 				seq++
 				w := DataWire(n, fresh, []byte{byte(seq >> 8), byte(seq)})
